@@ -153,6 +153,98 @@ fn entity_pairs(bases: &[Based]) -> InputFam {
     }
 }
 
+
+/// a large honest payload followed by something that makes the load fail: error paths must stay inside
+/// the bound too (an error value that carries the decoded data, a Debug dump in a message ...)
+fn large_then_error() -> InputFam {
+    let fmts = [Fmt::Rgba, Fmt::Gray, Fmt::Indexed(0)];
+    let faults = ["the same cel chunk again", "a second cel on a layer that does not exist", "a layer with blend mode 99 after it", "a cel of unknown type after it", "a chunk header declaring more bytes than follow", "a linked cel pointing at a missing frame", "an indexed pixel outside the palette / nothing (control)"];
+    let carriers = ["image cel", "tilemap cel", "tileset"];
+    let mut cases: Vec<(usize, usize, usize)> = Vec::new();
+    for a in 0..fmts.len() {
+        for c in 0..carriers.len() {
+            for b in 0..faults.len() {
+                cases.push((a, c, b));
+            }
+        }
+    }
+    let cases = Arc::new(cases);
+    let c2 = cases.clone();
+    InputFam {
+        name: "large-then-error".into(),
+        what: "3 pixel formats x {image cel, tilemap cel, tileset} holding 32 MiB of zeros (about 33 KB compressed, honest declared size) x 7 ways to make the load fail afterwards (the same chunk again, a cel on a missing layer, an unknown blend mode, an unknown cel type, a chunk size beyond the input, a link to a missing frame, a control)".into(),
+        n: cases.len(),
+        gen: Box::new(move |i| {
+            let (a, c, b) = cases[i];
+            let fmt = &fmts[a];
+            let n = 32usize << 20;
+            let z = Zlib::Verbatim(zlib(&vec![0u8; n], 9));
+            let px = n / fmt.bpp();
+            let (w, h) = (4096u16, (px / 4096) as u16);
+            let mut f = gen::file(4, 4, fmt, &[1, 1]);
+            if matches!(fmt, Fmt::Indexed(_)) {
+                f.frames[0].push(new_palette(0, pal_entries(4, 1)));
+            }
+            f.frames[0].push(Body::Tileset(tileset(0, 1, 1, 1, vec![0; fmt.bpp()], "t")));
+            f.frames[0].push(Body::Layer(Layer::image("l")));
+            f.frames[0].push(Body::Layer(Layer::tilemap("m", 0)));
+            let big: Body = match c {
+                0 => Body::Cel(Cel::new(0, 0, 0, 255, CelBody::Compressed { w, h, data: vec![], z })),
+                1 => {
+                    let mut cel = tm_cel(1, 0, 0, 255, 2048, 4096, vec![]);
+                    if let Body::Cel(cc) = &mut cel {
+                        if let CelBody::Tilemap { z: zz, .. } = &mut cc.body {
+                            *zz = z;
+                        }
+                    }
+                    cel
+                }
+                _ => {
+                    let mut ts = tileset(9, (px / (256 * 256)) as u32, 256, 256, vec![], "big");
+                    ts.z = z;
+                    Body::Tileset(ts)
+                }
+            };
+            f.frames[0].push(big.clone());
+            match b {
+                0 => {
+                    f.frames[0].push(big);
+                }
+                1 => {
+                    f.frames[0].push(raw_cel(7, 0, 0, 255, 1, 1, vec![0; fmt.bpp()]));
+                }
+                2 => {
+                    let mut l = Layer::image("bad");
+                    l.blend = 99;
+                    f.frames[0].push(Body::Layer(l));
+                }
+                3 => {
+                    let mut cel = Cel::new(0, 0, 0, 255, CelBody::Other { data: vec![1, 2, 3, 4] });
+                    cel.ty = Some(9);
+                    f.frames[1].push(Body::Cel(cel));
+                }
+                4 => {
+                    f.frames[1].push(Body::Path);
+                    f.frames[1].chunks[0].size = Some(0x00ff_ffff);
+                }
+                5 => {
+                    f.frames[1].push(link_cel(0, 0, 0, 255, 9));
+                }
+                _ => {
+                    if matches!(fmt, Fmt::Indexed(_)) {
+                        f.frames[1].push(raw_cel(0, 0, 0, 255, 1, 1, vec![200]));
+                    }
+                }
+            }
+            f.encode()
+        }),
+        label: Box::new(move |i| {
+            let (a, c, b) = c2[i];
+            format!("{} 32 MiB {} then {}", ["rgba", "gray", "indexed"][a], carriers[c], faults[b])
+        }),
+    }
+}
+
 fn bombs(thorough: bool) -> InputFam {
     let mut makers: Vec<(String, Box<dyn Fn() -> Vec<u8> + Sync + Send>)> = Vec::new();
     let sizes: Vec<usize> = if thorough { vec![1 << 20, 16 << 20, 64 << 20, 512 << 20] } else { vec![1 << 20, 16 << 20, 64 << 20] };
@@ -415,7 +507,7 @@ fn cross_load(ctx: &Ctx, worst: &AtomicU64) {
 pub fn run(ctx: &Ctx) -> i32 {
     let thorough = ctx.tier == Tier::Thorough;
     let bases = based_files(false);
-    let mut fams: Vec<InputFam> = vec![inflate_family(&bases), entity_pairs(&bases), bombs(thorough), dense(thorough), links_to_big(thorough)];
+    let mut fams: Vec<InputFam> = vec![inflate_family(&bases), entity_pairs(&bases), large_then_error(), bombs(thorough), dense(thorough), links_to_big(thorough)];
     // the C04 corruption families under the memory oracle as well (byte sweeps only in thorough)
     for f in all_families(ctx.tier) {
         if (f.name.starts_with("M1") && !thorough) || f.name == "M2-structural-big" {
@@ -428,7 +520,7 @@ pub fn run(ctx: &Ctx) -> i32 {
         if !ctx.wants_family(&fam.name) {
             continue;
         }
-        let heavy = fam.name == "deflate-bombs" || fam.name == "dense-cel-table" || fam.name == "links-to-big" || fam.name.starts_with("M6");
+        let heavy = fam.name == "deflate-bombs" || fam.name == "large-then-error" || fam.name == "dense-cel-table" || fam.name == "links-to-big" || fam.name.starts_with("M6");
         let pool = Pool::new("checked", if heavy { 3 } else { 16 }, if heavy { 300.0 } else { 30.0 });
         let only_idx: Option<usize> = ctx.only.as_ref().and_then(|(_, c)| c.strip_prefix("idx=").and_then(|r| r.split(' ').next()).and_then(|s| s.parse().ok()));
         let indices: Vec<usize> = match only_idx {
